@@ -136,6 +136,7 @@ VARIANTS = {
   fault('plain-branch-truthiness', F(MR, 'MarkdownRenderer.fragments_to_lines', 'if max_line_length is None:', 'if not max_line_length:'), 'R-SENTINEL'),
   fault('heading-rewrapped', F(MR, 'MarkdownRenderer.render_heading', 'self.span_to_lines(token.children, max_line_length=None)', 'self.span_to_lines(token.children, max_line_length=max_line_length)'), 'R-NOWRAP'),
   fault('table-rewrapped', F(MR, 'MarkdownRenderer.table_row_to_text', 'max_line_length=None', 'max_line_length=self.max_line_length'), 'R-NOWRAP'),
+  fault('hard-break-not-flushed', F(MR, 'MarkdownRenderer.fragments_to_lines', "                    # hard line break\n                    yield current_line\n                    current_line = \"\"\n                    continue", "                    # hard line break\n                    continue"), 'R-HARDBREAK'),
   fault('fill-without-test', F(MR, 'MarkdownRenderer.fragments_to_lines', "                if len(test) <= max_line_length:\n                    current_line = test\n                else:\n                    yield current_line\n                    current_line = word",
                                "                if len(current_line) <= max_line_length:\n                    current_line = test\n                else:\n                    yield current_line\n                    current_line = word"), 'R-FILL'),
  ],
@@ -187,6 +188,8 @@ VARIANTS = {
   fault('setext-mixed', S(BT, r"setext_pattern = re.compile(r' {0,3}(=+|-+) *$')", r"setext_pattern = re.compile(r' {0,3}(=|-)+ *$')"), ('R-START-INCL', 'setext')),
   fault('heading-start-true-without-match', F(BT, 'Heading.start', "        if match_obj is None:\n            return False\n", "        if match_obj is None:\n            return line.startswith('#######')\n"), 'R-START-ONLY-IF'),
   fault('intraword-underscore-opens', F(CT, 'is_opener', "and (not is_right\n                 or (is_right and preceded_by(start, string, punctuation))))", "and True)"), 'R-FLANK-PROSE'),
+  fault('quote-four-spaces', F(BT, 'Quote.start', 'if len(line) - len(stripped) > 3:', 'if len(line) - len(stripped) > 4:'), 'R-SCANNER-INDENT'),
+  fault('htmlblock-four-spaces', F(BT, 'HtmlBlock.start', 'if len(line) - len(stripped) >= 4:', 'if len(line) - len(stripped) > 4:'), 'R-SCANNER-INDENT'),
   fault('gap-text-stripped', F(SK, 'make_tokens', "t = fallback_token(html.unescape(string[prev_end:token.start]))", "t = fallback_token(html.unescape(string[prev_end:token.start].strip()))"), 'R-GAP-VERBATIM'),
  ],
  'C15': [
